@@ -21,19 +21,20 @@
                           - the repaired loop never starts an evaluation above the pending-rank minimum, and
                             whatever became pending inside a pass (scheduled by a sibling's tick, paused)
                             DEFERS every unsettled entry ranked above it for the whole rest of the pass;
+                          - ranks follow dependencies: re_rank never returns with a new violated edge;
                           - the loop before the repair violates the property: `snapshot_order_refuted`.
    (c) dependency cycles. A self reference is always reported; a report is sound for the registered edges.
 
    NOT proved here (kept visible, carried by the correspondence + the oracle of gen/mesh.py on every case):
      * dependency_settled_when_evaluated (trace level, the full (b)): "in the trace of any engine cycle of the
-       repaired model no comb(k) precedes comb(j) when k reads j".  Missing: (i) re_rank re-establishes
-       rank(requester) > rank(dependency) for EVERY registered edge (a DFS argument over `dependents`);
-       (ii) completeness of the candidate set (a child with a due node is a candidate).  With (i), (ii) the
-       theorems below compose to it by induction over the rank.
+       repaired model no comb(k) precedes comb(j) when k reads j".  Proved: the rank order of the registered
+       edges (re_rank_restores_the_rank_order) and the deferral mechanism.  Missing: completeness of the
+       candidate set (a child with a due node is a candidate in the pass that follows) and the lift of the
+       rank-order invariant through instance creation / removal; with them the theorems below compose to the
+       trace statement by induction over the rank.
      * evaluated_at_most_once (trace level, the full (a)): needs the slot store invariant (a free slot holds no
        entry) to show that create_instance never overwrites a settled entry.
-     * cycle_report_complete: a cycle among the registered edges through the new edge is always reported
-       (needs (i)). *)
+     * cycle_report_complete: a cycle among the registered edges through the new edge is always reported. *)
 Require Import Base Mesh MeshFacts.
 
 (* ---------------------------------------------------------------- (a) at most once *)
@@ -89,6 +90,25 @@ Theorem repaired_loop_defers_readers_of_paused_child :
     process_entry s t m2 = (m2, Deferred).
 Proof. exact no_evaluation_above_paused. Qed.
 Print Assumptions repaired_loop_defers_readers_of_paused_child.
+
+(* THE RANKS FOLLOW THE DEPENDENCIES.  [violated m a b]: "a depends on b" is registered, both instances exist
+   and a is NOT ranked above b.  Whatever re_rank does (re-ranking through the dependents to any depth), when
+   it returns without an error it has introduced no violated edge and has repaired the edge it was called for *)
+Theorem re_rank_restores_the_rank_order :
+  forall fuel k d stack m, failed m = false -> k <> d -> failed (re_rank fuel k d stack m) = false ->
+    forall a b, violated (re_rank fuel k d stack m) a b -> violated m a b /\ ~ (a = k /\ b = d).
+Proof. exact re_rank_restores. Qed.
+Print Assumptions re_rank_restores_the_rank_order.
+
+(* ... so "no registered edge is violated" is kept by add_dependency (both instances existing) *)
+Theorem add_dependency_keeps_the_rank_order :
+  forall k d t m, failed m = false -> k <> d ->
+    (forall a b, violated (dep_insert d k m) a b -> a = k /\ b = d) ->
+    find_entry (dep_insert d k m) d <> None ->
+    failed (fst (add_dependency k d t m)) = false ->
+    forall a b, ~ violated (fst (add_dependency k d t m)) a b.
+Proof. exact add_dependency_keeps_rank_order. Qed.
+Print Assumptions add_dependency_keeps_the_rank_order.
 
 (* ---- the witness: 3 reads 2 reads 1; cycle 2 ticks val[1] and val[3] but not val[2] *)
 Definition witness : wire :=
@@ -214,3 +234,13 @@ Proof. vm_compute. reflexivity. Qed.
 Example cycle_sound_hypotheses_inhabited :
   failed state1 = false /\ chain state1 [3] /\ depends state1 3 2 /\ depends state1 2 1.
 Proof. vm_compute. repeat split; auto. Qed.
+
+(* hypotheses of re_rank_restores_the_rank_order / add_dependency_keeps_the_rank_order: in state1 a new key 7
+   (rank 0, created on demand by key 1) becomes a dependency of key 1: 1 is raised above 7, then 2 above 1, then
+   3 above 2; nothing is violated afterwards although three ranks changed *)
+Example re_rank_chain_inhabited :
+  let m := fst (add_dependency 1 7 2 state1) in
+  failed m = false /\
+  map (fun oe => match oe with Some e => (e_key e, e_rank e) | None => (0, 0) end) (firstn 4 (m_entries m))
+  = [(1, 1); (2, 2); (3, 3); (7, 0)].
+Proof. vm_compute. split; reflexivity. Qed.
